@@ -469,3 +469,84 @@ Definition run_scenario (op : sc_op) (va vb : value) (who : bool) (p : path) (u 
       let st4 := flip a st3 in
       (read st4 b, read st4 a)
   end.
+
+(* ------------------------------------------------------------------ operation sequences on a pool of instances *)
+(* The correspondence interleaves operations on up to a few instances of ONE type and, after (almost) every step,
+   observes every instance: its field values, to_bits, pairwise ==, pairwise equality of hash().  The model runs
+   the same sequence on the cell store; the property's invariants are evaluated against the model's values. *)
+Fixpoint sub_obj (o : obj) (p : path) {struct p} : option obj :=
+  match p with
+  | [] => Some o
+  | Fld i :: q => match o with OStruct _ cs => match nth_error cs i with Some c => sub_obj c q | None => None end | _ => None end
+  | Idx i :: q => match o with OList _ cs => match nth_error cs i with Some c => sub_obj c q | None => None end | _ => None end
+  end.
+Fixpoint vflat (v : value) : list Z :=
+  match v with
+  | VBits u => [u]
+  | VStruct vs => concat (map vflat vs)
+  | VList vs => concat (map vflat vs)
+  end.
+(* in-place write of a value to the sub-object at path p (a Bits leaf, a nested struct, a list element) *)
+Definition write_sub (o : obj) (p : path) (v : value) (st : store) : store :=
+  match sub_obj o p with
+  | Some so => fold_left (fun s lu => set_cur s (fst lu) (snd lu)) (combine (leaves so) (vflat v)) st
+  | None => st
+  end.
+
+Inductive seq_op : Type :=
+| QNew     (v : value)                       (* a new instance holding v: T(...), T(), from_bits, from_bits(x.to_bits()) *)
+| QClone   (i : nat)                         (* clone / deepcopy of instance i, appended *)
+| QWrite   (i : nat) (p : path) (v : value)  (* x.f @= v, x.l[k] @= v, x.sub @= v, x.sub <<= v; x.sub._flip() *)
+| QImatmul (i j : nat)                       (* x_i @= x_j   (also x_i @= x_j.to_bits()) *)
+| QIlshift (i j : nat)                       (* x_i <<= x_j *)
+| QFlip    (i : nat)                         (* x_i._flip() *)
+| QNop.                                      (* observation only *)
+
+Definition sstate := (list obj * store)%type.
+Definition nth_obj (os : list obj) (i : nat) : obj := nth i os (OLeaf 0).
+Definition seq_step (s : sstate) (op : seq_op) : sstate :=
+  let '(os, st) := s in
+  match op with
+  | QNew v => let '(o, st') := alloc v st in (os ++ [o], st')
+  | QClone i => let '(o, st') := clone (nth_obj os i) st in (os ++ [o], st')
+  | QWrite i p v => (os, write_sub (nth_obj os i) p v st)
+  | QImatmul i j => (os, imatmul (nth_obj os i) (nth_obj os j) st)
+  | QIlshift i j => (os, ilshift (nth_obj os i) (nth_obj os j) st)
+  | QFlip i => (os, flip (nth_obj os i) st)
+  | QNop => s
+  end.
+Definition seq_values (s : sstate) : list value := map (read (snd s)) (fst s).
+
+(* what was observed after a step: per instance (field values, to_bits), then for all pairs i<j: x_i == x_j, hash(x_i) == hash(x_j) *)
+Definition step_obs := option (list (value * Z) * list bool * list bool).
+Fixpoint all_pairs {A} (l : list A) : list (A * A) :=
+  match l with
+  | [] => []
+  | x :: r => map (pair x) r ++ all_pairs r
+  end.
+Fixpoint check_pairs (ps : list (value * value)) (eqs hs : list bool) : bool :=
+  match ps, eqs, hs with
+  | [], [], [] => true
+  | ab :: ps', e :: eqs', h :: hs' =>
+      Bool.eqb e (veqb (fst ab) (snd ab)) && implb (veqb (fst ab) (snd ab)) h && check_pairs ps' eqs' hs'
+  | _, _, _ => false
+  end.
+Definition check_obs (T : shape) (ms : list value) (o : step_obs) : bool :=
+  match o with
+  | None => true
+  | Some (vs, eqs, hs) =>
+      forall2b (fun m vz => typed T m && veqb m (fst vz) && (pack T m =? snd vz)) ms vs
+      && check_pairs (all_pairs ms) eqs hs
+  end.
+(* index of the first step whose observation contradicts the model / the invariants *)
+Fixpoint seq_run (T : shape) (s : sstate) (ops : list seq_op) (obs : list step_obs) (k : nat) : option nat :=
+  match ops, obs with
+  | op :: ops', o :: obs' =>
+      let s' := seq_step s op in
+      if check_obs T (seq_values s') o then seq_run T s' ops' obs' (S k) else Some k
+  | [], [] => None
+  | _, _ => Some k
+  end.
+Definition seq_ok (T : shape) (ops : list seq_op) (obs : list step_obs) : bool :=
+  match seq_run T ([], empty_store) ops obs 0 with None => true | Some _ => false end.
+Definition seq_model (ops : list seq_op) : list value := seq_values (fold_left seq_step ops ([], empty_store)).
